@@ -329,3 +329,33 @@ def stats(plan, jr):
     if not fault:
         s["fault_free"] = 1
     return s
+
+
+def shrink_candidates(plan):
+    """Simpler variants: drop dup / motion / frames / live flags, identity rotations, rounder translations."""
+    import copy
+    for k, op in enumerate(plan["ops"]):
+        for key in ("dup", "motion", "frame_a", "frame_b", "live"):
+            if key in op:
+                p = copy.deepcopy(plan)
+                del p["ops"][k][key]
+                yield p
+        if op["op"] in ("body", "setpose"):
+            T = np.array(op["pose"], dtype=float)
+            if not np.array_equal(T[:3, :3], np.eye(3)):
+                p = copy.deepcopy(plan)
+                T2 = T.copy()
+                T2[:3, :3] = np.eye(3)
+                p["ops"][k]["pose"] = T2.tolist()
+                yield p
+            t = [float("%.2g" % v) for v in T[:3, 3]]
+            if t != T[:3, 3].tolist():
+                p = copy.deepcopy(plan)
+                T2 = T.copy()
+                T2[:3, 3] = t
+                p["ops"][k]["pose"] = T2.tolist()
+                yield p
+        if op["op"] == "body" and op.get("E") != 1.0:
+            p = copy.deepcopy(plan)
+            p["ops"][k]["E"] = 1.0
+            yield p
